@@ -289,12 +289,11 @@ for _file, _cls, _flag in [("processor/context/metric_action.py", "MetricActionC
 
 CS = "config/config_service.py"
 for _flag in ("has_metric_processor", "has_span_processor"):
-    c = contract(CS, "ConfigService." + _flag, ["C17", "C20"])
+    c = contract(CS, "ConfigService." + _flag, ["C17", "C20"], coarse=True)
     c.param("self", OBJ("ConfigService"))
     c.result = BOOL
     c.logged = _flag
     c.modifies = lambda S_: []
-    c.coarse = True
 
 # =============================================================================== TriggerHandler.trace_call
 import ast as _ast
